@@ -24,7 +24,21 @@ def body_label(dom):
 
 def run(ctx):
     res = Result('C05')
-    roles = ctx.roles
+    from ..recorder import StructuralFinding
+    try:
+        roles = ctx.roles
+    except StructuralFinding as sf:
+        if sf.what[0] != 'shared-thread-local':
+            raise
+        # the per-thread "inside an interception" marker belongs to one recorder: kept in a module-level object it is shared by every
+        # recorder of the process, and an interception of one recorder silences the interceptions of all the others on that thread
+        c0 = res.clause('C05.c', 'R-MUSTPASS', 'the in-interception marker is per recorder (and per thread)', floor=1)
+        c0.instance('marker kept on the recorder instance', sf.cls.name, False)
+        res.add(Finding('C05', 'C05.c', 'R-MUSTPASS', sf.cls.module.relpath, sf.cls.name, sf.what[2], '%s = threading.local()' % sf.what[1],
+                        'the in-interception marker lives in the module-level `%s`, shared by every TapeRecorder of the process: while one recorder is '
+                        'inside an interception on a thread, interceptions of another recorder on that thread are passed through without being '
+                        'captured - its recording is saved as complete with those entries missing' % sf.what[1]))
+        return res
     res.explanation = (
         'Decides the pairing/typestate skeleton of C05 on the control-flow graph of the operation decorator with '
         'start_recording, the operation executor, discard/force/enable/disable re-entry and all helpers inlined: '
